@@ -199,6 +199,7 @@ def execute(sc):
 
     try:
         cur = model.build()
+        bystanders = []
     except Exception as e:
         # a label configuration the constructor refuses is not a history to explore
         return {"violations": [], "log": [["ctor-rejected", type(e).__name__]], "trace": key + "|ctor-rejected", "nontrivial": False,
@@ -428,10 +429,16 @@ def execute(sc):
             continue
         kinds.append("%s:%s:%s" % (op, axis, spec[0] if spec else "-"))
         opsnaps = [_state(o, kind) for o in operands]
-        results = []
-        for fname, mut, fn in forms:
+        results = [None] * len(forms)
+        pick = st["pick"] % len(forms)
+        # every form runs on its own clone of the current object, except the form whose result is kept when it is a
+        # mutating one: that one runs last and on the current object itself, which may share label arrays with the
+        # objects it was derived from (they are kept as bystanders and must not change)
+        order = [i for i in range(len(forms)) if i != pick] + [pick]
+        for fi in order:
+            fname, mut, fn = forms[fi]
             try:
-                x = copy.deepcopy(cur)
+                x = cur if (fi == pick and mut and bystanders) else copy.deepcopy(cur)
             except Exception as e:
                 # the current object cannot be cloned (e.g. an emptied axis): end of this history
                 probes["history_ended_unclonable"] = 1
@@ -444,7 +451,7 @@ def execute(sc):
             except Exception as e:
                 res, err = None, e
             after = _state(x, kind)
-            results.append({"form": fname, "mut": mut, "res": res, "err": err, "clone_changed": after != before})
+            results[fi] = {"form": fname, "mut": mut, "res": res, "err": err, "clone_changed": after != before, "src": x}
             for o, s0 in zip(operands, opsnaps):
                 if _state(o, kind) != s0:
                     V.append(viol("operands-unchanged", "%s.%s_%s" % (key, MUT.get(op, op) if mut else op, axis), "operand",
@@ -452,7 +459,7 @@ def execute(sc):
                     break
             if V:
                 break
-        if V or results is None:
+        if V or results is None or any(r is None for r in results):
             break
         okf = [r for r in results if r["err"] is None]
         bad = [r for r in results if r["err"] is not None]
@@ -514,10 +521,28 @@ def execute(sc):
                 break
         if V:
             break
-        new_cur = results[st["pick"] % len(results)]["res"]
+        new_cur = results[pick]["res"]
         got = verify(new_cur, "%s_%s" % (op, axis), ix, expect, sorted_axis)
         if got is None or got == "stop":
             break
+        # objects this history derived others from (sources of non-mutating forms, operands) stay as they were,
+        # whatever is later done to the objects derived from them
+        for o, s0, born in bystanders:
+            if _state(o, kind) != s0:
+                V.append(viol("source-unaffected-by-later-ops", opname, "bystander-changed",
+                              "step %d: %s on the current object changed a matrix it had been derived from at step %d" % (ix, results[pick]["form"], born), step=ix))
+                break
+        if V:
+            break
+        if not results[pick]["mut"]:
+            try:
+                bystanders.append((results[pick]["src"], _state(results[pick]["src"], kind), ix))
+                for o in operands:
+                    bystanders.append((o, _state(o, kind), ix))
+            except Exception:
+                pass
+            del bystanders[:-3]
+            fault("derived_object_kept_with_its_source")
         if op == "group" and axis in mm.GROUPMETA:
             try:
                 if getattr(new_cur, "is_grouped_" + axis)():
